@@ -296,26 +296,26 @@ theorem key_found (S : Schema) (E : Enums) (c : Nat) (bs : Bytes) (i : Nat) (f :
     forget (finish (fieldsOf S c) (Src.from_dict_key S E c (fromDictC S E) (.str bs) value init))
       = forget (ofR (kvStepSet S E c (.str bs) value (resolveKw (fieldsOf S c) init))) := by
   unfold Src.from_dict_key
-  simp only [safeSnakeCase, res_bind_ok, metaByFieldName, hfn, Option.map_some, clsByField, clsByFieldMapValue, clsOfField,
+  simp only [safeSnakeCase, res_bind_ok, metaByFieldName, hfn, Option.map_some, fdClsByField, clsByFieldMapValue, clsOfField,
     kvStepSet, fieldOfJKey, Casing.fieldOfKey, metaProtoType, metaWraps, mapTypesSet, metaMapValue]
   cases hm : (f.ty == PType.message) with
   | true =>
     simp only [if_true, if_false, Bool.false_eq_true, res_bind_ok]
     cases hw : f.wraps with
     | some w =>
-      simp only [Option.isSome_some, if_true, clsIsDatetime, clsIsTimedelta, Bool.not_true, Bool.false_eq_true, if_false]
+      simp only [Option.isSome_some, if_true, fdClsIsDatetime, fdClsIsTimedelta, Bool.not_true, Bool.false_eq_true, if_false]
       cases value <;> fd_leaf [hm, hw, close_leaf _ _ _ _ _ hfn]
     | none =>
       simp only [Option.isSome_none, Bool.false_eq_true, if_false]
       cases hk : f.kind with
       | timestamp =>
-        simp only [clsIsDatetime, if_true]
+        simp only [fdClsIsDatetime, if_true]
         cases value <;> fd_leaf [hm, hw, hk, close_leaf _ _ _ _ _ hfn]
       | duration =>
-        simp only [clsIsDatetime, clsIsTimedelta, if_true, if_false, Bool.false_eq_true]
+        simp only [fdClsIsDatetime, fdClsIsTimedelta, if_true, if_false, Bool.false_eq_true]
         cases value <;> fd_leaf [hm, hw, hk, close_leaf _ _ _ _ _ hfn]
       | user c' =>
-        simp only [clsIsDatetime, clsIsTimedelta, if_true, if_false, Bool.false_eq_true, Bool.not_false]
+        simp only [fdClsIsDatetime, fdClsIsTimedelta, if_true, if_false, Bool.false_eq_true, Bool.not_false]
         cases value <;> fd_leaf [hm, hw, hk, close_leaf _ _ _ _ _ hfn]
   | false =>
     simp only [if_false, Bool.false_eq_true]
